@@ -346,8 +346,8 @@ Proof.
     destruct (memz q seen) eqn:M; [rewrite (loop_seen fx t c O seen q sq acc Fx M); discriminate|].
     exfalso. apply memz_false in M.
     assert (Hq : ~ In q acc) by (intros H; apply M; apply I2; exact H).
-    pose proof (NoDup_incl_length (NoDup_snoc acc q ND Hq)) as Len.
-    specialize (Len (pids_of t)). rewrite app_length in Len. unfold pids_of in Len. rewrite map_length in Len.
+    pose proof (@NoDup_incl_length Z (acc ++ [q]) (pids_of t) (NoDup_snoc acc q ND Hq)) as Len.
+    rewrite app_length in Len. unfold pids_of in Len. rewrite map_length in Len.
     cbn [length] in Len. assert ((length acc + 1 <= length t)%nat); [|lia].
     apply Len. intros x Hx. apply in_app_or in Hx. destruct Hx as [Hx|[Hx|[]]]; [apply I1; exact Hx|].
     subst x. apply (Hc (q, sq) eq_refl).
@@ -385,20 +385,20 @@ Theorem parents_acyclic_chain : forall t cache o, wf_table t = true -> alive_b t
   cache_fresh_b t cache = true -> acyclic t ->
   exists l, parents as_is (S (length t)) t cache o = Val (Some l) /\ chain t (o_pid o) l.
 Proof.
-  intros t cache o W A F AC. destruct (alive_facts t o A) as [_ [_ [e [L S]]]].
+  intros t cache o W A F AC. destruct (alive_facts t o A) as [_ [_ [e [L St]]]].
   pose proof (parents_terminates as_is t cache o eq_refl) as T.
   unfold parents in *. rewrite (parent_spec t cache o W A F) in *. cbn [obind] in *.
   pose proof (cache_after_fresh t cache o A F) as F'.
   destruct (spec_parent t (o_pid o) (o_ident o)) as [[q2 s2]|] eqn:SP.
   - destruct (spec_parent_listed _ _ _ _ _ SP) as [e' [L' S']].
-    assert (Pq : spec_parent_of t (o_pid o) = Some q2) by (rewrite (spec_parent_of_eq t _ _ e L S), SP; reflexivity).
+    assert (Pq : spec_parent_of t (o_pid o) = Some q2) by (rewrite (spec_parent_of_eq t _ _ e L St), SP; reflexivity).
     destruct (loop_total as_is t _ W F' (S (length t)) q2 s2 e' [] [o_pid o] L' S') as [N|[r Hr]]; [contradiction|].
     destruct (loop_sound as_is t _ W F' AC (S (length t)) q2 s2 e' [] [o_pid o] r L' S') as [l [E Ch]].
     + intros x [Hx|[]]. subst x. exists O. cbn [up]. rewrite Pq. reflexivity.
     + exact Hr.
     + cbn [app] in E. subst r. exists (q2 :: l). split; [exact Hr|]. apply chain_cons; assumption.
   - exists []. split; [apply loop_none|].
-    apply chain_end. rewrite (spec_parent_of_eq t _ _ e L S), SP. reflexivity.
+    apply chain_end. rewrite (spec_parent_of_eq t _ _ e L St), SP. reflexivity.
 Qed.
 
 (* never an exception for a live caller *)
@@ -420,7 +420,7 @@ Qed.
 Lemma up_older : forall t, strictly_older_b t = true -> forall k p q, up t (S k) p = Some q ->
   exists ep eq, lookup t p = Some ep /\ lookup t q = Some eq /\ kp_start eq < kp_start ep.
 Proof.
-  intros t SO. rewrite forallb_forall in SO.
+  intros t SO. unfold strictly_older_b in SO. rewrite forallb_forall in SO.
   assert (Step : forall p q, spec_parent_of t p = Some q ->
             exists ep eq, lookup t p = Some ep /\ lookup t q = Some eq /\ kp_start eq < kp_start ep).
   { intros p q H. unfold spec_parent_of in H. destruct (lookup t p) as [ep|] eqn:Lp; [|discriminate].
